@@ -49,6 +49,9 @@ type scenario struct {
 	seenOps  []string // operation labels seen in messages
 	tokenSeq int
 	kinds    string
+	// expireStep is how far the clock is moved in each round of the final
+	// phase of drain() (must exceed every configured time-out).
+	expireStep int
 }
 
 func pick[T any](rng *rand.Rand, s []T) T { return s[rng.Intn(len(s))] }
@@ -357,8 +360,12 @@ func (sc *scenario) drain() {
 	sc.settle()
 	// 3. all timeouts pass
 	w.tr.Emit(common.Ev{"ev": "phase", "phase": "expire"})
+	step := 40
+	if sc.expireStep > 0 {
+		step = sc.expireStep
+	}
 	for i := 0; i < 6; i++ {
-		w.Advance(40)
+		w.Advance(step)
 		for _, t := range w.DueTimers() {
 			w.Fire(t)
 		}
